@@ -371,9 +371,9 @@ CLAUSES = [
            desc='build from one parameter set, read another, rebuild: same cell (same vectors if LAMMPS-compatible, else same Gram matrix/handedness)'),
     Clause('getters', oracle_getters, getters_cases, quick=8000, thorough=200000, min_share={'nt': 0.5},
            desc='a,b,c,alpha,beta,gamma,volume,reciprocal vectors, LAMMPS getters against independent formulas'),
-    Clause('posmaps', oracle_posmaps, posmaps_cases, quick=12000, thorough=300000, min_share={'nt': 0.4, 'list': 0.3},
+    Clause('posmaps', oracle_posmaps, posmaps_cases, quick=12000, thorough=300000, min_share={'nt': 0.25, 'list': 0.15},
            desc='relative<->Cartesian maps against s.V+o, mutual inverses, shapes, list and array input'),
-    Clause('inside', oracle_inside, inside_cases, quick=12000, thorough=300000, min_share={'nt': 0.3, 'onface': 0.1},
+    Clause('inside', oracle_inside, inside_cases, quick=12000, thorough=300000, min_share={'nt': 0.25, 'onface': 0.08},
            desc='inside()/outside() against relative coordinates in [0,1]; exact boundary behaviour on dyadic orthogonal cells'),
     Clause('recip_cache', oracle_cache, cache_cases, quick=3000, thorough=60000, min_share={'nt': 0.5},
            desc='history of setters on one Box: vects/origin/reciprocal cache consistent after every step'),
